@@ -205,6 +205,11 @@ func pairExpr(outer, inner string, right bool, r *rand.Rand) (gen.Expr, bool) {
 
 func c01Run(c *core.Ctx, i int) {
 	r := c.Rng
+	if i%40 == 19 { // operands read from globals that a later operand's call assigns
+		c.Cover("family", "operand-order-with-assignment")
+		runGenProgram(c, operandOrderProgram(r), nil, true, false)
+		return
+	}
 	if i%40 == 39 { // deep equality of any values with different dynamic types
 		c.Cover("family", "any-equality")
 		runGenProgram(c, anyEqProgram(r), nil, true, false)
